@@ -6,16 +6,17 @@ from ..poly import Poly, all_atoms, deep_subs
 
 
 def tolerance_guards(M, tol=Fraction(1, 100)):
-    """if_else conditions of the form (small constant) < sqrt(.): the 'norm is not degenerate' guards."""
+    """if_else conditions that compare a norm (sqrt) with a small constant - the 'norm is not degenerate' guards - mapped
+    to the truth value that selects the REGULAR side: (k < n), (k <= n) -> True; the complements (n < k), (n <= k) -> False."""
     out = {}
     for c in ite_conditions(M):
         a = c.single_atom()
-        if a is None or a.kind != "lt":
+        if a is None or a.kind not in ("lt", "le"):
             continue
-        k = a.key[0].const_value()
-        n = a.key[1]
-        if k is not None and 0 <= k <= tol and any(x.kind == "sqrt" for x in n.atoms()):
-            out[c] = True
+        for small, norm, regular_when in ((a.key[0], a.key[1], True), (a.key[1], a.key[0], False)):
+            k = small.const_value()
+            if k is not None and 0 <= k <= tol and any(x.kind == "sqrt" for x in norm.atoms()):
+                out[c] = regular_when
     return out
 
 
@@ -31,6 +32,7 @@ def frame_checks(w, rep, site, Rd, xC, W, thrust=None, spec=None):
     g = tolerance_guards(Rd)
     if thrust is not None:
         g.update(tolerance_guards(thrust))
+    tol = dict(g)
     from .c07 import pole_conditions
     g.update({c: False for c in pole_conditions(Rd)})     # heading taken from a quaternion: regular Euler band
     R = regular(Rd, g)
@@ -41,9 +43,12 @@ def frame_checks(w, rep, site, Rd, xC, W, thrust=None, spec=None):
     for M_ in ([Rd] + ([thrust] if thrust is not None else [])):
         for p_ in M_.flat():
             for a in all_atoms(p_):
-                if a.kind != "ite" or a.key[0] not in g or g[a.key[0]] is not True or not isinstance(a.key[1], Poly):
+                if a.kind != "ite" or a.key[0] not in tol:
                     continue
-                dens = {x for mono in a.key[1].t for x, e in mono if x.kind == "sqrt" and e < 0}
+                reg_side = a.key[1] if tol[a.key[0]] else a.key[2]
+                if not isinstance(reg_side, Poly):
+                    continue
+                dens = {x for mono in reg_side.t for x, e in mono if x.kind == "sqrt" and e < 0}
                 tested = set(all_atoms(a.key[0]))
                 for s_ in dens:
                     if (a.key[0], s_) in seen_g:
@@ -93,10 +98,10 @@ def frame_checks(w, rep, site, Rd, xC, W, thrust=None, spec=None):
             vv = MatVal(3, 1, [[p] for p in vc])
             verdict(rep, "C14.frame", "%s: returned thrust = |demanded force|" % site, nT, cm.scalar(cm.un("sqrt", cm.sumsqr(vv).s())), (), W, "returned thrust is not the norm of the demanded force")
     # ---- the documented fallbacks: each degenerate-norm guard taken alone (the others regular)
-    tg = [c for c in g if g[c] is True]
+    tg = list(tol)
     for k_, c in enumerate(tg):
         sel = dict(g)
-        sel[c] = False
+        sel[c] = not tol[c]
         Rdeg = regular(Rd, sel)
         if spec:
             # the frame is a function of the demanded force and the heading only: specialise the inputs so that the force is
